@@ -68,6 +68,19 @@ class C18(InvProp):
                 d = [r.choice(segs) for _ in range(r.range(0, 3))]
                 paths.add("/".join(["nodes"] + d + [r.choice(names) + "." + r.choice(["yml", "yaml"])]))
             yield case(sorted(paths), r.chance(2, 3), r.chance(1, 3))
+            if i % 3 == 0:
+                # the same instance renders, has its compatibility flags changed through the public methods, and renders
+                # again: metadata must follow the settings in force (compared with a fresh instance)
+                lit = r.chance(1, 2)
+                c = case(sorted(paths), True if r.chance(4, 5) else False, lit)
+                FL = "compose-node-name-literal-dots"
+                if lit:
+                    steps = r.choice([[{"unset_flag": FL}], [{"clear_flags": 1}], [{"set_flag": FL}, {"render_inventory": 1}, {"unset_flag": FL}]])
+                else:
+                    steps = r.choice([[{"set_flag": FL}], [{"set_flag": r.choice(["compose_node_name_literal_dots", "ComposeNodeNameLiteralDots"])}],
+                                      [{"set_flag": FL}, {"render_inventory": 1}, {"clear_flags": 1}, {"set_flag": FL}]])
+                c["lifecycle"] = steps
+                yield c
 
     def judge(self, req, impl, reply):
         j = super().judge(req, impl, reply)
